@@ -254,10 +254,15 @@ def encodePathsFuel : Nat → List EnCmd → List (List (Nat × Op)) → Option 
 def encodePaths (cmds : List EnCmd) (paths : List (List (Nat × Op))) : Option (List Nat) :=
   encodePathsFuel (cmds.length + 1) cmds paths
 
-/-- stem deltas of one chunk: `encodeNumber(x - prev)`, `prev` the unrounded previous edge -/
+/-- stem deltas of one chunk: `enc := encodeNumber(x - prev); prev += enc.Val` — `prev` (in 2⁻¹⁶ units) is
+the edge as the decoder will see it, the sum of the rounded deltas written so far (as `encodeArgs` does
+for coordinates).  REPAIRED C04-stemaccum (repository commit b6e7b8c): before, `prev = x` was the
+unrounded previous edge and the rounding errors of stems finer than 16.16 added up along a chunk. -/
 def stemChunkCodes (K : Nat) : Int → List Int → List EncNum
   | _, [] => []
-  | prev, x :: rest => encNum (x - prev) K :: stemChunkCodes K x rest
+  | prev, x :: rest =>
+    let d := encNum (x - prev * 2 ^ (K - 16)) K
+    d :: stemChunkCodes K (prev + d.val) rest
 
 /-- the chunk loop of one stem list; returns header bytes and the remaining `extra` -/
 def stemListFuel (K : Nat) (op : Op) (isV : Bool) (maskFirst : Bool) :
